@@ -223,6 +223,9 @@ KNOWN_CLASSES = {
     "C13:use_operators:negative-literal-pow-base:precedence":
         "use_operators=True with inline_const=True prints Pow(c, x) with a negative scalar constant c as `y = -2.0 ** x`, which Python reads as "
         "-(2.0 ** x): the exported function computes something else",
+    "C13:use_operators:operator-name-of-another-domain:printed-as-python-operator":
+        "use_operators=True prints a node as a python operator whenever its op_type is in the table, whatever its domain: a model-local function or "
+        "custom operator called Add / Sub / ... is printed as `a + b`, which the converter reads as the ONNX operator -- the regenerated model computes something else",
     "C13:use_operators:no-opset-call-left":
         "use_operators=True on a function all of whose nodes print as Python operators: no opset is mentioned and @script() has no default_opset",
     "C13:names:collision-after-cleanup:silently-merged":
@@ -515,15 +518,10 @@ def corr_cf(ctx, workdir, cleanup, stats, tab):
     C.set_ops(tab["ops"])
     quick = ctx.tier == "quick"
     cases, rejected = C.nested_cases(ctx.rng, 26 if quick else 110, 8 if quick else 30)
-    fixed = [dict(zip(OPT_NAMES, t)) for t in ((False, False, False, False), (True, False, False, False), (False, True, True, False),
-                                               (False, False, True, False), (False, True, False, False), (False, False, False, True))]
     skipped, items, refused = Counter(), [], 0
+    oplines = {}
     for c in cases:
-        if quick:
-            opt_list = fixed[:3] + [fixed[3 + len(items) % 3]] + [ctx.rng.choice(ALL_OPTS)]
-            opt_list = [o for k, o in enumerate(opt_list) if o not in opt_list[:k]]
-        else:
-            opt_list = list(ALL_OPTS)
+        opt_list = list(ALL_OPTS)  # every option tuple on every case, in both tiers (session 6)
         for opts in opt_list:
             try:
                 C.in_scope(c, opts)
@@ -533,6 +531,10 @@ def corr_cf(ctx, workdir, cleanup, stats, tab):
                 continue
             except C.ParseError as e:
                 ctx.tie_broken("translator", "cf:generated-source", f"{c['id']} [{opt_tag(opts)}]: {e}")
+                continue
+            if obs["func"] == "SYNTAX" and c.get("tie_only"):
+                ctx.violation(f"C13:unexpected:{c['kind']}:syntax:SyntaxError:{opt_tag(opts)}:generated-source-not-python",
+                              f"{c['id']} [{opt_tag(opts)}]: the generated source is not valid Python ({obs['raised']})", {"case": c["id"], "options": opts, "generated_source": obs["code"]})
                 continue
             if obs["func"] == "SYNTAX":  # not valid Python: a failure of the property on this input; the oracle names its class
                 names = G.all_names(c["proto"])
@@ -547,13 +549,20 @@ def corr_cf(ctx, workdir, cleanup, stats, tab):
                 continue
             refused += obs["func"] is None
             items.append((c, opts, obs))
+            if opts["use_operators"] and obs["code"]:
+                try:
+                    for row in C.operator_lines(obs["code"]):
+                        oplines.setdefault(row[1], (row[0], row[2], f"{c['id']} [{opt_tag(opts)}]"))
+                except C.ParseError as e:
+                    ctx.tie_broken("translator", "optext:generated-source", f"{c['id']} [{opt_tag(opts)}]: {e}")
     bad_total, in_domain, plain, compared = 0, 0, 0, 0
     rt = Counter()
     forms = Counter()
-    for lo in range(0, len(items), 50):
-        shard = items[lo:lo + 50]
-        ok, vals, raw = ctx.coq_eval(C.REQUIRES, C.coq_body(shard), name="cf")
-        if not ok or len(vals) < 5:
+    shards = [items[lo:lo + 50] for lo in range(0, len(items), 50)]
+    results = ctx.coq_eval_shards(C.REQUIRES, [C.coq_body(sh) for sh in shards], par=4)
+    skip_only, skip_in_domain, ops_only, ops_in_domain = 0, 0, 0, 0
+    for shard, (ok, vals, raw) in zip(shards, results):
+        if not ok or len(vals) < 7:
             ctx.tie_broken("correspondence", "cf:model-evaluation", raw[-800:])
             bad_total += 1
             continue
@@ -562,6 +571,12 @@ def corr_cf(ctx, workdir, cleanup, stats, tab):
         some = re.findall(r"true|false", vals[2])
         hyp_nobrk = re.findall(r"true|false", vals[3])
         rts = re.findall(r"\((true|false), (true|false), (true|false)\)", vals[4])
+        hyp_skip = re.findall(r"true|false", vals[5])
+        hyp_ops = re.findall(r"true|false", vals[6])
+        if len(hyp_skip) != len(shard) or len(hyp_ops) != len(shard):
+            ctx.tie_broken("correspondence", "cf:model-evaluation", f"{len(hyp_skip)} skip verdicts for {len(shard)} cases")
+            bad_total += 1
+            continue
         if len(hyp) != len(shard) or len(some) != len(shard) or len(hyp_nobrk) != len(shard) or len(rts) != len(shard):
             ctx.tie_broken("correspondence", "cf:model-evaluation", f"{len(hyp)}/{len(some)} verdicts for {len(shard)} cases")
             bad_total += 1
@@ -572,6 +587,12 @@ def corr_cf(ctx, workdir, cleanup, stats, tab):
             is_plain = not (opts["use_operators"] or opts["inline_const"] or opts["skip_initializers"])
             plain += is_plain
             in_domain += hyp[k] == "true"
+            if opts["skip_initializers"] and not opts["inline_const"] and obs["func"] is not None:
+                skip_only += 1
+                skip_in_domain += hyp_skip[k] == "true"
+            if opts["use_operators"] and not (opts["inline_const"] or opts["skip_initializers"]) and obs["func"] is not None:
+                ops_only += 1
+                ops_in_domain += hyp_ops[k] == "true"
             if is_plain:
                 # the hypotheses of C13_roundtrip_sound_partial: our class, C01's class (pre_ok, with / without "every value is a
                 # condition"), the converter model accepts the exported function
@@ -585,7 +606,7 @@ def corr_cf(ctx, workdir, cleanup, stats, tab):
                 rt["all_hypotheses_without_truth_totality"] += hyp_nobrk[k] == "true" and rts[k][0] == "true" and rts[k][2] == "true"
             shape = (info["ifs"] > 0, info["while"] > 0, info["pure_for"] > 0, info["for_with_cond"] > 0, info["depth"])
             forms[shape] += 1
-            ctx.case(("cf", c["kind"], c["profile"], opt_tag(opts), shape, hyp[k], some[k], obs["func"] is None, min(obs["statements"], 16)))
+            ctx.case(("cf", c["kind"], c["profile"], opt_tag(opts), shape, hyp[k], hyp_skip[k], hyp_ops[k], some[k], obs["func"] is None, min(obs["statements"], 16)))
             if k in bad:
                 bad_total += 1
                 what = (f"the exporter raised ({obs['raised']}) where the model emits a program" if obs["func"] is None else
@@ -601,6 +622,15 @@ def corr_cf(ctx, workdir, cleanup, stats, tab):
                    f"{bad_total} disagreements")
     ctx.obligation("nested tie health: at least a quarter of the programs compared with the structure-changing options off satisfy every "
                    "hypothesis of C13_export_nested_sound_partial", in_domain * 4 >= plain and plain > 0, f"{in_domain} of {plain}")
+    ctx.obligation("use_operators tie health: at least a quarter of the programs printed with use_operators (inline_const / skip_initializers off) "
+                   "satisfy every hypothesis of C13_export_nested_ops_sound_partial", ops_in_domain * 4 >= ops_only and ops_only > 0,
+                   f"{ops_in_domain} of {ops_only}")
+    ctx.cover(cf_ops_programs=ops_only, cf_ops_in_theorem_domain=ops_in_domain)
+    ctx.obligation("skip_initializers tie health: at least a quarter of the programs printed with skip_initializers (inline_const off, use_operators on or off) "
+                   "satisfy every hypothesis of C13_export_skip_sound_partial", skip_in_domain * 4 >= skip_only and skip_only > 0,
+                   f"{skip_in_domain} of {skip_only}")
+    ctx.cover(cf_skip_programs=skip_only, cf_skip_in_theorem_domain=skip_in_domain, cf_option_tuples="all 16 on every case")
+    corr_optext(ctx, oplines)
     print(f"[C13] round-trip theorem (C13_roundtrip_sound_partial): {rt['all_hypotheses']} of {rt['plain']} exported nested programs (options off) "
           f"satisfy every hypothesis ({rt['all_hypotheses_without_truth_totality']} without the truth-totality premise); "
           f"export class {rt['export_class']}, converter class {rt['converter_class']}, converter model accepts {rt['converter_model_accepts']}")
@@ -610,10 +640,48 @@ def corr_cf(ctx, workdir, cleanup, stats, tab):
     ctx.cover(cf_programs_compared=compared, cf_in_theorem_domain=in_domain, cf_plain_option_programs=plain, cf_disagreements=bad_total,
               cf_exporter_refused_and_model_refused=refused, cf_skipped=dict(skipped), cf_generated_invalid=rejected,
               cf_shapes={str(k): v for k, v in sorted(forms.items(), key=lambda kv: -kv[1])[:12]})
-    return [c for c in cases if c.get("origin") == "cf-features"]
+    return [c for c in cases if c.get("origin") == "cf-features" and not c.get("tie_only")]
+
+
+def corr_optext(ctx, oplines):
+    """Export/OpText.v `parse_text` (the reader of the operator-text theorems of Props/C13_optsem.v) = Python's own parser:
+    on every distinct operator line of the generated sources (use_operators on) and on generated expression texts.
+    A disagreement on a generated line whose Python reading differs from the emission model has already been reported
+    by the structure comparison; here the Coq grammar is what is checked."""
+    from harness import c13_cf as C
+    rows = [(text, toks, f"(Some {want})", where) for toks, (text, want, where) in sorted(oplines.items())]
+    n_lines = len(rows)
+    try:
+        rows += [(t, k, w, "generated expression") for t, k, w in C.random_expressions(ctx.rng, 300 if ctx.tier == "quick" else 1500)]
+    except C.ParseError as e:
+        ctx.tie_broken("harness", "optext:expression-generator", str(e))
+        return
+    bad_total = 0
+    for lo in range(0, len(rows), 400):
+        shard = rows[lo:lo + 400]
+        body = (f"Definition cases : list (list tok * option expr) := {clist([f'({k}, {w})' for _, k, w, _ in shard])}.\n"
+                "Eval vm_compute in (disagreeing_parse 0 cases).")
+        ok, vals, raw = ctx.coq_eval(["OV.Graph.Syntax", "OV.Script.Syntax", "OV.Export.EmitCF", "OV.Export.OpText"], body, name="optext")
+        if not ok or not vals:
+            ctx.tie_broken("correspondence", "optext:model-evaluation", raw[-800:])
+            return
+        for j in common.parse_nat_list(vals[0]):
+            bad_total += 1
+            text, _, want, where = shard[j]
+            ctx.tie_broken("correspondence", "optext", f"{where}: `{text}` is read by ast.parse as {want[:200]}, Export/OpText.v parse_text differs")
+    for text, _, want, where in rows:
+        ctx.case(("optext", where == "generated expression", want == "None", min(len(text.split()), 9),
+                  tuple(sorted({t for t in text.replace("(", " ").replace(")", " ").split() if not t[0].isalnum() and t[0] not in "[-"} | ({"neg"} if "-" in text else set())))[:4]))
+    ctx.obligation(f"correspondence: Export/OpText.v parse_text = ast.parse on {n_lines} distinct operator lines of the generated sources and "
+                   f"{len(rows) - n_lines} generated expression texts (precedence, associativity, unary minus, parentheses, comparison chains refused)",
+                   bad_total == 0 and n_lines > 0, f"{bad_total} disagreements")
+    ctx.cover(optext_generated_lines=n_lines, optext_generated_expressions=len(rows) - n_lines, optext_disagreements=bad_total)
 
 
 def _emit_disagreement(ctx, c, opts, workdir, cleanup, detail):
+    if c.get("tie_only"):  # a model that cannot be run (a Loop that never stops): no oracle verdict
+        ctx.tie_broken("correspondence", "emit", f"{c['id']} [{opt_tag(opts)}]: {detail}; the model cannot be executed (no oracle)")
+        return
     info = analyze(c["proto"])
     names = G.all_names(c["proto"])
     fr = len({cleanup(n) for n in names}) == len(set(names))
@@ -710,6 +778,83 @@ def corr_const_repr(ctx, workdir):
         ctx.tie_broken("correspondence", "literal-reentry", f"literal {uniq[i][0]!r} is read back with another shape/type than the model says")
     ctx.obligation(f"correspondence: the converter reads {len(rows)} printed literals back with the rank and type of Export/ConstRepr.v", not bad2)
     ctx.cover(const_repr_samples=len(samples), literal_reentry_cases=len(rows))
+
+
+def measure_literal_text(ctx):
+    """The two Section hypotheses of C13_literal_text_reads_back_partial, measured on the real _get_const_repr, and the
+    integer printer / reader of Export/InlineText.v against Python's str / int.
+      float_roundtrip      float32(float(text)) has the bits of the constant
+      float_text_not_int   the text of a FLOAT constant is not the text of an integer
+    on random finite float32 bit patterns (scalars and vectors of 1..4 elements) and the corner values."""
+    import ast as pyast
+    import struct
+
+    from onnx import helper as h
+    from onnx import numpy_helper as nh
+    from onnxscript.backend import onnx_export as E
+    rng = ctx.rng
+    n = 400 if ctx.tier == "quick" else 4000
+    corner = [0, 0x80000000, 1, 0x80000001, 0x007FFFFF, 0x00800000, 0x7F7FFFFF, 0xFF7FFFFF, 0x3F800000, 0x3DCCCCCD, 0x4B800000, 0x4B800001,
+              0x5F000000, 0x3A83126F, 0x33D6BF95, 0x7F000000, 0x00000002, 0x3F7FFFFF, 0x3F800001, 0x501502F9]
+    bits = corner + [rng.getrandbits(32) for _ in range(n)]
+    bits = [b for b in bits if (b & 0x7F800000) != 0x7F800000]  # finite
+
+    def f32(b):
+        return np.frombuffer(struct.pack("<I", b), dtype=np.float32)[0]
+
+    def back(x):
+        return struct.unpack("<I", struct.pack("<f", x))[0]
+
+    bad, measured, kinds = [], 0, set()
+    k = 0
+    while k < len(bits):
+        size = rng.choice([0, 0, 1, 2, 3, 4])  # 0: a rank-0 constant
+        chunk = bits[k:k + max(size, 1)]
+        k += max(size, 1)
+        arr = np.array([f32(b) for b in chunk], dtype=np.float32)
+        arr = arr.reshape(()) if size == 0 else arr
+        text = E._get_const_repr(h.make_node("Constant", [], ["c"], value=nh.from_array(arr, "c")))
+        if text is None:
+            bad.append((chunk, "not inlined"))
+            continue
+        tree = pyast.parse(text, mode="eval").body
+        elts = tree.elts if isinstance(tree, pyast.List) else [tree]
+        if len(elts) != len(chunk):
+            bad.append((chunk, text))
+            continue
+        for b, e in zip(chunk, elts):
+            seg = pyast.get_source_segment(text, e)
+            measured += 1
+            kinds.add((size == 0, "e" in seg, b >> 31, (b & 0x7F800000) == 0))
+            ctx.case(("literal-text", size == 0, "e" in seg, b >> 31, (b & 0x7F800000) == 0, min(len(seg), 12)))
+            if re.fullmatch(r"[+-]?\d+", seg) or back(float(seg)) != b:
+                bad.append((b, seg))
+    for b, seg in bad[:5]:
+        ctx.violation("C13:inline_const:float-literal-text-does-not-read-back",
+                      f"_get_const_repr prints the FLOAT constant with bits {b!r} as {seg!r}, which is not read back as that float32",
+                      {"bits": b, "text": seg})
+    ctx.obligation(f"hypotheses float_roundtrip / float_text_not_int of C13_literal_text_reads_back_partial measured on {measured} FLOAT elements "
+                   f"printed by the real _get_const_repr (random finite bit patterns, subnormals, extremes, -0.0; scalars and vectors)", not bad and measured > 0,
+                   f"{len(bad)} failures")
+    ints = [0, 1, -1, 9, 10, -10, 2**63 - 1, -2**63, 10**18, -10**18, 123456789012345678] + [rng.randint(-2**63, 2**63 - 1) for _ in range(60)] + \
+           [rng.randint(-1000, 1000) for _ in range(60)]
+    observed = []
+    for z in ints:
+        text = E._get_const_repr(h.make_node("Constant", [], ["c"], value=nh.from_array(np.array(z, dtype=np.int64), "c")))
+        observed.append(text)
+        ctx.case(("literal-text-int", z < 0, min(len(str(z)), 20)))
+        if text is None or int(text) != z:
+            ctx.violation("C13:inline_const:int-literal-text-does-not-read-back", f"_get_const_repr prints INT64 {z} as {text!r}", {"value": z, "text": text})
+    rows = clist([f"({common.cz(z)}, {cstr(t or '')})" for z, t in zip(ints, observed)])
+    ok, vals, raw = ctx.coq_eval(["OV.Export.InlineText"], f"Definition cases : list (Z * string) := {rows}.\nEval vm_compute in (disagreeing_int_text 0 cases).", name="inttext")
+    if not ok or not vals:
+        ctx.tie_broken("correspondence", "int_text:model-evaluation", raw[-800:])
+        return
+    badi = common.parse_nat_list(vals[0])
+    for i in badi[:5]:
+        ctx.tie_broken("correspondence", "int_text", f"INT64 {ints[i]} is printed as {observed[i]!r} by _get_const_repr; Export/InlineText.v int_text / int_of_text differ")
+    ctx.obligation(f"correspondence: the text _get_const_repr prints for {len(ints)} INT64 scalars = Export/InlineText.v int_text, and int_of_text reads it back", not badi)
+    ctx.cover(literal_text_float_elements=measured, literal_text_float_kinds=len(kinds), literal_text_ints=len(ints))
 
 
 def check_keyword_table(ctx, tab, workdir, cleanup):
@@ -936,6 +1081,25 @@ def probes(ctx, workdir, cleanup, stats):
             key = "C13:docstring:quotes-or-trailing-backslash:SyntaxError" if out["stage"] == "syntax" else \
                 f"C13:unexpected:model:{out['stage']}:{out['exc']}:default:doc-string-probe"
             ctx.violation(key, KNOWN_CLASSES.get(key, f"doc string {doc!r}: {out['stage']} {out['exc']} {out['msg'][:200]}"), _replay(case, none, out))
+    # use_operators looks at op_type only: a model-local function custom.Add (computing a - b) is printed as `a + b`
+    # (Props/C13_nested.v C13_export_foreign_domain_operator is the same line in the emission model)
+    import onnx as _onnx
+    fn = h.make_function("custom", "Add", ["a", "b"], ["c"], [h.make_node("Sub", ["a", "b"], ["c"])], opset_imports=[h.make_opsetid("", 18)])
+    g = h.make_graph([h.make_node("Add", ["x", "w"], ["t"], domain="custom"), h.make_node("Identity", ["t"], ["y"])], "g",
+                     [h.make_tensor_value_info(n, TP.FLOAT, [3]) for n in ("x", "w")], [h.make_tensor_value_info("y", TP.FLOAT, [3])])
+    m = h.make_model(g, opset_imports=[h.make_opsetid("", 18), h.make_opsetid("custom", 1)], ir_version=9, functions=[fn])
+    case = {"id": "probe:operator-name-of-another-domain", "kind": "model", "proto": m, "feeds": [{"x": v, "w": v * 3 + 1} for v in x3], "large_inits": [],
+            "profile": "probe"}
+    opts = dict(zip(OPT_NAMES, (False, True, False, False)))
+    try:
+        out = R.round_trip(case, opts, workdir, R.reference_outputs(case), cleanup)
+    except Exception as e:  # noqa: BLE001 -- onnxruntime cannot run the original: no verdict
+        out = {"stage": "ok", "exc": type(e).__name__, "msg": str(e)[:200], "detail": "", "code": None}
+    stats["runs"] += 1
+    ctx.case(("probe", "operator-name-of-another-domain", out["stage"]))
+    if out["stage"] == "mismatch":  # (a failure to load / run the regenerated model is the missing support for local functions, not this)
+        key = "C13:use_operators:operator-name-of-another-domain:printed-as-python-operator"
+        ctx.violation(key, KNOWN_CLASSES[key], _replay(case, opts, out))
     # non-ASCII names (outside the Coq model; oracle only)
     for nm in ("x²", "été", "名前", "a·b", "①"):
         m = mk([h.make_node("Neg", ["x"], [nm]), h.make_node("Abs", [nm], ["y"])], ["x"], ["y"])
@@ -996,10 +1160,14 @@ def run(ctx):
     ctx.assume("emission theorem (Export/Emit.v): straight-line graphs of default-domain operators; attribute values abstract (their printed text is "
                "evaluated and re-encoded by the harness before the comparison); use_operators / inline_const / skip_initializers off; "
                "an omitted node output is the empty name at its position; Python reading of the program = Script/PySem.v")
-    ctx.assume("nested emission theorem (Export/EmitCF.v): options off; plain nodes, If, Loop in the while form whose body does not read its condition "
-               "input, nested to any depth; one iteration bound for Python `while` and for ONNX Loop without trip count; the exporter's two dictionaries "
-               "(remapping scope, inlined constants) are computed in traversal order before the emission; the counted Loop forms, use_operators, "
-               "inline_const and skip_initializers are in the emission model and in the correspondence check only")
+    ctx.assume("nested emission theorems (Export/EmitCF.v, EmitOpts.v): plain nodes, If, Loop in the while / for / for+break forms whose body does not read its "
+               "condition input, nested to any depth; use_operators on or off (a table node printed as an operator must be the default-domain operator with two "
+               "operands, one output, no attribute); skip_initializers read as: the parameters of make_model are leading parameters of the function; inline_const off "
+               "(literal-text and line-level theorems only); one iteration bound for Python `while` and for ONNX Loop without trip count; the exporter's two "
+               "dictionaries (remapping scope, inlined constants) are computed in traversal order before the emission")
+    ctx.assume("operator text (Export/OpText.v): the reader is a precedence parser for names, non-negative NUMBER tokens, parentheses, unary minus, the binary "
+               "operators of the table and `%` / `!=`; a list display is one atom; it is compared with ast.parse on every generated operator line and on generated expressions")
+    ctx.assume("literal text (Export/InlineText.v): the float printer / reader are Section variables; their round trip is measured on the real _get_const_repr, not proved")
     ctx.assume("un-SSA theorem (Export/Unssa.v): the translated loop body is an abstract state transformer satisfying its specification "
                "(Section hypothesis body_spec); abstract values, no scan outputs")
     ctx.trust("onnx.checker (full_check) filters generator output; onnxruntime executes both sides; ast.parse/importlib execute the generated text")
@@ -1014,6 +1182,7 @@ def run(ctx):
 
     corr_names(ctx, tab)
     corr_const_repr(ctx, workdir)
+    measure_literal_text(ctx)
     check_keyword_table(ctx, tab, workdir, cleanup)
     templ = corr_emit(ctx, workdir, cleanup, stats)
     cf_feats = corr_cf(ctx, workdir, cleanup, stats, tab)
@@ -1028,8 +1197,7 @@ def run(ctx):
     attrs, rej3 = S.attr_nesting_cases(ctx.rng, 20 if quick else 96)
     fn_opts = [o for o in ALL_OPTS if not o["skip_initializers"]]
     for c in attrs:
-        c["opts"] = fn_opts if not quick else [fn_opts[0], [o for o in fn_opts if o["rename"] and not o["use_operators"] and not o["inline_const"]][0]] \
-            + ctx.rng.sample([o for o in fn_opts[1:] if o["use_operators"] or o["inline_const"]], 2)
+        c["opts"] = fn_opts  # all 8 tuples in both tiers (session 6)
     # small constants in rank-sensitive operand positions: rename / skip_initializers are masked on models of the
     # unmodified tree, so only use_operators x inline_const vary
     ranks, rej4 = S.rank_const_cases(ctx.rng)
@@ -1070,9 +1238,9 @@ def run(ctx):
               failures_by_class=stats["failures"], models_with_name_collisions=stats["models_with_collisions"],
               output_names_changed=stats["output_names_changed"], make_model_protocol_runs=stats["make_model_protocol"],
               generated_invalid_skipped=stats["generated_invalid_skipped"], refused_descriptively=stats["refused_descriptively"], unrunnable_originals=stats["unrunnable_originals"],
-              option_tuples="all 16" if not quick else "default + 3 random per case",
-              not_modelled="attribute pretty-printing, _handle_attrname_conflict (observed through execution only); use_operators / inline_const / "
-                           "skip_initializers and the counted Loop forms are modelled (Export/EmitCF.v) and compared, not covered by a soundness theorem; "
+              option_tuples="all 16" if not quick else "default + 3 random per case (structure correspondence and attribute-parameter functions: every tuple)",
+              not_modelled="attribute pretty-printing, _handle_attrname_conflict (observed through execution only); inline_const is modelled (Export/EmitCF.v) and "
+                           "compared, covered by literal-text and line-level theorems only; bodies reading their condition input are compared, not in a theorem; "
                            "If nodes whose outputs are all unused are not generated (the converter refuses them)")
     if ctx.tier == "thorough":
-        ctx.coqchk(["Props.C13", "Props.C13_unssa", "Props.C13_constrepr", "Props.C13_emit", "Props.C13_nested", "Props.C13_unique", "Props.C13_options", "Props.C13_roundtrip", "Props.C13_findings"])
+        ctx.coqchk(["Props.C13", "Props.C13_unssa", "Props.C13_constrepr", "Props.C13_emit", "Props.C13_nested", "Props.C13_unique", "Props.C13_options", "Props.C13_roundtrip", "Props.C13_findings", "Props.C13_loopforms", "Props.C13_optsem", "Props.C13_inline"])
